@@ -5,15 +5,19 @@ import (
 	"encoding/json"
 	"fmt"
 	"math/big"
+	"net"
+	"os"
 	"strings"
 	"sync"
 	"sync/atomic"
 	"time"
 
+	badgerdb "github.com/dgraph-io/badger/v2"
 	"github.com/vipnode/vipnode/v2/ethnode"
 	"github.com/vipnode/vipnode/v2/jsonrpc2"
 	"github.com/vipnode/vipnode/v2/pool"
 	"github.com/vipnode/vipnode/v2/pool/store"
+	"github.com/vipnode/vipnode/v2/pool/store/badger"
 	"verifharness/vlib"
 )
 
@@ -747,4 +751,314 @@ func c10UpdatesWhileCreditsFail(ev *vlib.Evidence, driver string, idx int) {
 	if sum.Sign() != 0 {
 		ev.Defer("pool:"+driver+":charged-for-credit-that-was-not-written", map[string]interface{}{"sum_of_balances": sum.String(), "failed_credits": failedCredits, "clients": nc, "hosts": nh, "updates_per_client": rounds})
 	}
+}
+
+// c11PeerRecordUnreadable (C11): the stored record of a reported peer cannot
+// be read (a damaged value) at a keep-alive of its observer, after the peer
+// itself kept checking in. A peer that keeps checking in and keeps being
+// reported is never declared invalid: the keep-alive may fail, but it may not
+// name the peer, and the peer is still tracked once the record is readable.
+func c11PeerRecordUnreadable(ev *vlib.Evidence, idx int) {
+	dir, err := os.MkdirTemp("", "verif-c11-unreadable-")
+	if err != nil {
+		ev.Inconclusive("tempdir")
+		return
+	}
+	defer os.RemoveAll(dir)
+	open := func() store.Store {
+		s, err := badger.Open(vlib.BadgerDiskOptions(dir))
+		if err != nil {
+			return nil
+		}
+		return s
+	}
+	s := open()
+	if s == nil {
+		ev.Inconclusive("open")
+		return
+	}
+	a := store.NodeID(fmt.Sprintf("c11u-observer-%d", idx))
+	b := store.NodeID(fmt.Sprintf("c11u-peer-%d", idx))
+	other := store.NodeID(fmt.Sprintf("c11u-other-%d", idx))
+	margin := 1500 * time.Millisecond
+	t0 := time.Now()
+	s.SetNode(store.Node{ID: a, LastSeen: t0})
+	s.SetNode(store.Node{ID: other, IsHost: true, LastSeen: t0})
+	s.SetNode(store.Node{ID: b, IsHost: true, LastSeen: t0.Add(-store.ExpireInterval + margin)})
+	if inactive, err := s.UpdateNodePeers(a, []string{string(b), string(other)}, 1); err != nil || len(inactive) != 0 || time.Since(t0) > margin/2 {
+		s.Close()
+		ev.Inconclusive("c11 unreadable-record: first keep-alive too slow or refused")
+		return
+	}
+	time.Sleep(margin + 500*time.Millisecond)
+	// the peer checks in itself
+	if _, err := s.UpdateNodePeers(b, nil, 2); err != nil {
+		s.Close()
+		ev.Inconclusive("c11 unreadable-record: peer check-in failed")
+		return
+	}
+	s.Close()
+	key := []byte(fmt.Sprintf("vip:node:%s", b))
+	var saved []byte
+	raw := func(fn func(txn *badgerdb.Txn) error) bool {
+		db, err := badgerdb.Open(vlib.BadgerDiskOptions(dir))
+		if err != nil {
+			return false
+		}
+		defer db.Close()
+		return db.Update(fn) == nil
+	}
+	if !raw(func(txn *badgerdb.Txn) error {
+		item, err := txn.Get(key)
+		if err != nil {
+			return err
+		}
+		if saved, err = item.ValueCopy(nil); err != nil {
+			return err
+		}
+		return txn.Set(key, []byte{0xff, 0x00, 0xff})
+	}) {
+		ev.Inconclusive("c11 unreadable-record: could not damage the record")
+		return
+	}
+	if s = open(); s == nil {
+		ev.Inconclusive("reopen")
+		return
+	}
+	inactive, uerr := s.UpdateNodePeers(a, []string{string(b), string(other)}, 3)
+	s.Close()
+	ev.Case(fmt.Sprintf("peer-record-unreadable idx=%d", idx), true)
+	ev.Count("keep-alives-with-an-unreadable-peer-record", 1)
+	detail := map[string]interface{}{"keep_alive_error": fmt.Sprint(uerr), "declared_invalid": fmt.Sprint(inactive), "index": idx}
+	for _, n := range inactive {
+		if n == b && uerr == nil {
+			ev.Violate("unreadable-record:live-reported-peer-declared-invalid", detail)
+			return
+		}
+	}
+	if !raw(func(txn *badgerdb.Txn) error { return txn.Set(key, saved) }) {
+		ev.Inconclusive("c11 unreadable-record: could not restore the record")
+		return
+	}
+	if s = open(); s == nil {
+		ev.Inconclusive("reopen")
+		return
+	}
+	defer s.Close()
+	peers, perr := s.NodePeers(a)
+	tracked := false
+	for _, p := range peers {
+		tracked = tracked || p.ID == b
+	}
+	inactive2, uerr2 := s.UpdateNodePeers(a, []string{string(b), string(other)}, 4)
+	detail["tracked_after_restore"], detail["peers_error"] = tracked, fmt.Sprint(perr)
+	detail["next_keep_alive"] = fmt.Sprintf("invalid=%v err=%v", inactive2, uerr2)
+	switch {
+	case perr == nil && !tracked:
+		ev.Violate("unreadable-record:live-reported-peer-no-longer-tracked", detail)
+	case uerr2 == nil && len(inactive2) != 0:
+		ev.Violate("unreadable-record:live-reported-peer-declared-invalid-later", detail)
+	}
+}
+
+// c12LinkUnderLoad (C12): a node that holds trial credit is linked to a wallet
+// while its own keep-alives and registrations are in flight and a dashboard
+// keeps reading the statistics. On either driver the trial credit moves to
+// the wallet exactly once, and every statistics reading adds up to the credit
+// that exists (a reading never counts the credit on both sides of the link).
+func c12LinkUnderLoad(ev *vlib.Evidence, idx int) {
+	r := vlib.Rand("C12-link-load", idx)
+	trial := big.NewInt(int64(100 + r.Intn(100000)))
+	nodes := 8 + r.Intn(8)
+	outcome := map[string]string{}
+	for _, driver := range vlib.Drivers() {
+		s, cleanup, err := vlib.OpenStore(driver)
+		if err != nil {
+			panic(err)
+		}
+		want := new(big.Int).Mul(trial, big.NewInt(int64(nodes)))
+		ids := []store.NodeID{}
+		for k := 0; k < nodes; k++ {
+			id := store.NodeID(fmt.Sprintf("c12l-node-%d-%d", idx, k))
+			s.SetNode(store.Node{ID: id, LastSeen: time.Now()})
+			s.AddNodeBalance(id, trial)
+			ids = append(ids, id)
+		}
+		stop := make(chan struct{})
+		var bg sync.WaitGroup
+		var badReading string
+		var readings int64
+		bg.Add(1)
+		go func() {
+			defer bg.Done()
+			for {
+				select {
+				case <-stop:
+					return
+				default:
+				}
+				st, err := s.Stats()
+				if err != nil {
+					continue
+				}
+				readings++
+				if st.TotalCredit.Cmp(want) != 0 && badReading == "" {
+					badReading = fmt.Sprintf("total_credit=%s num_trial_balances=%d", &st.TotalCredit, st.NumTrialBalances)
+				}
+			}
+		}()
+		for g := 0; g < 3; g++ {
+			bg.Add(1)
+			go func(g int) {
+				defer bg.Done()
+				for k := 0; ; k++ {
+					select {
+					case <-stop:
+						return
+					default:
+					}
+					id := ids[k%nodes]
+					if g == 0 {
+						s.SetNode(store.Node{ID: id, LastSeen: time.Now(), NodeVersion: fmt.Sprint(k)})
+					} else {
+						s.UpdateNodePeers(id, nil, uint64(k))
+					}
+				}
+			}(g)
+		}
+		linkErrs := 0
+		for k, id := range ids {
+			// every node gets a wallet of its own that has no balance record yet
+			if err := s.AddAccountNode(store.Account(fmt.Sprintf("0xc12lWallet%d_%d", idx, k)), id); err != nil {
+				linkErrs++
+			}
+		}
+		close(stop)
+		bg.Wait()
+		wrong := []string{}
+		for k, id := range ids {
+			b, err := s.GetAccountBalance(store.Account(fmt.Sprintf("0xc12lWallet%d_%d", idx, k)))
+			nb, nerr := s.GetNodeBalance(id)
+			if err != nil || nerr != nil || b.Credit.Cmp(trial) != 0 || nb.Credit.Cmp(trial) != 0 {
+				wrong = append(wrong, fmt.Sprintf("node %d: wallet credit %s (err %v), node balance %s (err %v), want %s", k, &b.Credit, err, &nb.Credit, nerr, trial))
+			}
+		}
+		st, _ := s.Stats()
+		cleanup()
+		ev.Count("link-under-load-statistics-readings:"+driver, readings)
+		outcome[driver] = fmt.Sprintf("link_errors=%d wrong=%d total=%s trial_balances=%d", linkErrs, len(wrong), &st.TotalCredit, st.NumTrialBalances)
+		detail := map[string]interface{}{"driver": driver, "nodes": nodes, "trial_credit": trial.String(), "index": idx}
+		switch {
+		case len(wrong) > 0:
+			detail["wrong"] = wrong
+			ev.Violate("link-under-load:"+driver+":trial-credit-not-migrated-exactly-once", detail)
+		case st.TotalCredit.Cmp(want) != 0 || st.NumTrialBalances != 0:
+			detail["stats"] = outcome[driver]
+			ev.Violate("link-under-load:"+driver+":statistics-differ-from-true-sums", detail)
+		case badReading != "":
+			detail["reading"], detail["true_total"] = badReading, want.String()
+			ev.Violate("link-under-load:"+driver+":statistics-reading-differs-from-true-sum", detail)
+		}
+	}
+	ev.Case(fmt.Sprintf("link-under-load idx=%d nodes=%d", idx, nodes), true)
+	if outcome[vlib.DriverMemory] != outcome[vlib.DriverBadgerMem] {
+		ev.Violate("link-under-load:drivers-differ", outcome)
+	}
+}
+
+// replyFailCodec fails chosen reply writes on the serving side (a transient
+// write error: nothing reaches the wire), everything else passes through.
+type replyFailCodec struct {
+	jsonrpc2.Codec
+	mu      sync.Mutex
+	failIDs map[string]int // "*" -> reply writes still to fail
+	failed  int
+}
+
+func (c *replyFailCodec) WriteMessage(m *jsonrpc2.Message) error {
+	if m != nil && m.Response != nil && m.Request == nil {
+		c.mu.Lock()
+		left := c.failIDs["*"]
+		if left > 0 {
+			c.failIDs["*"] = left - 1
+			c.failed++
+		}
+		c.mu.Unlock()
+		if left > 0 {
+			return fmt.Errorf("write tcp: i/o timeout (injected)")
+		}
+	}
+	return c.Codec.WriteMessage(m)
+}
+
+// c14ReplyWriteFails (C14): writing the reply of an incoming request fails on
+// the serving side. The request was handled: it is not handled again, and
+// other calls on the connection keep getting their own replies.
+func c14ReplyWriteFails(ev *vlib.Evidence, idx int) {
+	r := vlib.Rand("C14-replywrite", idx)
+	c1, c2 := net.Pipe()
+	fc := &replyFailCodec{Codec: jsonrpc2.IOCodec(c2), failIDs: map[string]int{}}
+	p := newC14Pair(jsonrpc2.IOCodec(c1), fc, 0, 0)
+	defer c1.Close()
+	defer c2.Close()
+	// calls are made one after the other; before every k-th one the codec is armed to fail the next reply write(s)
+	victimEvery := 2 + r.Intn(3)
+	calls := 6 + r.Intn(10)
+	type one struct {
+		token string
+		err   error
+		rep   EchoReply
+	}
+	outs := make([]one, calls)
+	lost := map[string]bool{}
+	for k := 0; k < calls; k++ {
+		token := fmt.Sprintf("rw%d-%d", idx, k)
+		outs[k].token = token
+		victim := k%victimEvery == 0
+		ctx, cancel := context.WithTimeout(context.Background(), 20*time.Second)
+		if victim {
+			lost[token] = true
+			cancel()
+			ctx, cancel = context.WithTimeout(context.Background(), time.Duration(150+r.Intn(150))*time.Millisecond)
+			armNextReply(fc, 1+r.Intn(2))
+		}
+		outs[k].err = p.a.Call(ctx, &outs[k].rep, "echo_echo", token, 0)
+		cancel()
+		if victim {
+			time.Sleep(20 * time.Millisecond) // a repeated handling, if any, has happened by now
+			armNextReply(fc, 0)
+		}
+	}
+	fc.mu.Lock()
+	failedWrites := fc.failed
+	fc.mu.Unlock()
+	ev.Case(fmt.Sprintf("reply-write-fails idx=%d calls=%d every=%d", idx, calls, victimEvery), failedWrites > 0)
+	ev.Count("reply-writes-failed-on-the-serving-side", int64(failedWrites))
+	for _, o := range outs {
+		n := p.sb.count(o.token)
+		detail := map[string]interface{}{"token": o.token, "handled_times": n, "reply_write_failed": lost[o.token], "err": fmt.Sprint(o.err), "index": idx}
+		switch {
+		case n > 1:
+			ev.Violate("request-handled-more-than-once:reply-write-failed", detail)
+			return
+		case n == 0:
+			ev.Violate("request-not-handled:reply-write-fails-scenario", detail)
+			return
+		case !lost[o.token] && (o.err != nil || o.rep.Token != o.token):
+			detail["reply_token"] = o.rep.Token
+			ev.Violate("call-did-not-get-its-own-reply:after-failed-reply-write", detail)
+			return
+		case lost[o.token] && o.err == nil && o.rep.Token != o.token:
+			detail["reply_token"] = o.rep.Token
+			ev.Violate("wrong-reply-delivered:after-failed-reply-write", detail)
+			return
+		}
+	}
+}
+
+// armNextReply makes the next n reply writes fail, whatever their id.
+func armNextReply(c *replyFailCodec, n int) {
+	c.mu.Lock()
+	c.failIDs = map[string]int{"*": n}
+	c.mu.Unlock()
 }
